@@ -379,6 +379,8 @@ func TestChildWorker(t *testing.T) {
 			}
 		}
 		fmt.Println("BATCH-DONE")
+	case "m5":
+		ufChild(os.Getenv("C15_LIST"))
 	case "deep":
 		ins := deepInputs(run.Thorough())
 		w, err := newWorker()
@@ -422,6 +424,7 @@ func TestChildWorker(t *testing.T) {
 
 type childOutcome struct {
 	results  []*caseResult
+	uf       []*ufResult
 	done     bool
 	restart  bool // the child asked to be restarted after the last case (it left a stuck call behind)
 	timedOut bool
@@ -476,6 +479,11 @@ func runChild(tag string, env []string, timeout time.Duration) *childOutcome {
 			var r caseResult
 			if json.Unmarshal([]byte(ln[4:]), &r) == nil {
 				oc.results = append(oc.results, &r)
+			}
+		case strings.HasPrefix(ln, "UFRES "):
+			var r ufResult
+			if json.Unmarshal([]byte(ln[6:]), &r) == nil {
+				oc.uf = append(oc.uf, &r)
 			}
 		case ln == "BATCH-DONE":
 			oc.done = true
